@@ -319,7 +319,7 @@ fn build_side(ctx: &mut Ctx) {
     use multiboot2::MaybeDynSized;
     const SYMS: [&str; 6] = ["a", "\u{e9}", "\u{20ac}", "\0", " ", "\n"];
     let maxsym = if ctx.quick() { 4 } else { 6 };
-    ctx.bound("build", format!("all strings over {{a, e-acute (2 bytes), euro sign (3 bytes), NUL, space, newline}} up to {} symbols plus strings of every length 0..=300 and 1023..1025, 4095..4097, 65535..65537, 2^24-1..2^24+1 (quick tier: 2^24 only) (ASCII, and with a multi-byte last character), and every ASCII character plus 23 other code points (encoding-length boundaries, BOM, zero-width / line / paragraph separators, no-break and ideographic space, case-folding specials) alone / first / last / doubled / next to a space, for CommandLineTag::new, BootLoaderNameTag::new and ModuleTag::new", maxsym));
+    ctx.bound("build", format!("all strings over {{a, e-acute (2 bytes), euro sign (3 bytes), NUL, space, newline}} up to {} symbols plus strings of every length 0..=300 and 1023..1025, 4095..4097, 65535..65537, 2^24-1..2^24+1 (quick tier: 2^24 only) (ASCII, and with a multi-byte last character), and every ASCII character plus 23 other code points (encoding-length boundaries, BOM, zero-width / line / paragraph separators, no-break and ideographic space, case-folding specials) alone / first / last / doubled / next to a space, every ordered pair of 14 punctuation characters in five arrangements, 21 texts as boot loaders pass them (paths with arguments, quoted arguments, key=value, loader names), for CommandLineTag::new, BootLoaderNameTag::new and ModuleTag::new", maxsym));
     let mut texts: Vec<String> = Vec::new();
     for n in 0..=maxsym {
         for code in 0..6usize.pow(n as u32) {
@@ -355,6 +355,22 @@ fn build_side(ctx: &mut Ctx) {
         for t in [format!("{}", ch), format!("x{}", ch), format!("{}x", ch), format!("{}{}", ch, ch), format!("a {}b", ch), format!("A{}Z{}", ch, ch)] {
             texts.push(t);
         }
+    }
+    // two special characters at a time (a path and a space, a pair of quotes, key=value, an escape): every ordered pair
+    // over 14 punctuation characters in five arrangements
+    const PUNCT: [char; 14] = ['/', ' ', '"', '\'', '=', '\\', '\n', '\t', '-', ',', ';', ':', '#', '.'];
+    for &c1 in PUNCT.iter() {
+        for &c2 in PUNCT.iter() {
+            for t in [format!("{}{}", c1, c2), format!("{}x{}y", c1, c2), format!("x{}y{}", c1, c2), format!("{}abc{}", c1, c2), format!("{}ab{}cd{}ef", c1, c2, c2)] {
+                if !texts.contains(&t) {
+                    texts.push(t);
+                }
+            }
+        }
+    }
+    // texts as boot loaders pass them
+    for t in ["/boot/initrd.img root=/dev/ram0 quiet", "/boot/vmlinuz-6.1 root=UUID=0a1b ro quiet splash", "(hd0,1)/boot/kernel.elf --serial com1", "\"quoted module\" arg", "'single' arg", "console=ttyS0,115200n8 ", " root=/dev/sda1", "BOOT_IMAGE=/vmlinuz init=/bin/sh --", "GRUB 2.06", "GRUB 2.12~rc1-1", "Limine 5.20231207.1", "rEFInd 0.14", "a  b", "--", "/", "/ x", "x /y z", "key=\"v w\" k2='x'", "C:\\EFI\\boot\\bootx64.efi arg", "tab\tseparated\targs", "line1\nline2"] {
+        texts.push(t.to_string());
     }
     for kind in KINDS.iter() {
         for text in &texts {
